@@ -458,7 +458,12 @@ func (c *AuditClient) Close() error {
 // same order as the operations have been performed. If it receives an error,
 // it is returned and no further ACKs are processed.
 func (c *AuditClient) WaitForPendingACKs() error {
-	for _, reqID := range c.pendingAcks {
+	for len(c.pendingAcks) > 0 {
+		// Each pending ACK is waited for only once, even if it reports an
+		// error, so that a later call does not wait for it again.
+		reqID := c.pendingAcks[0]
+		c.pendingAcks = c.pendingAcks[1:]
+
 		ack, err := c.getReply(reqID)
 		if err != nil {
 			return err
